@@ -65,6 +65,21 @@ MUTANTS = [
     ('C09', 'subtype-first-link-only', 'xtuml/meta.py',
      "        subtype = navigate_one(supertype).nav(kind, rel_id)()\n        if subtype:\n            return subtype",
      "        return navigate_one(supertype).nav(kind, rel_id)()"),
+    ('C10', 'setattr-alias', 'xtuml/meta.py',
+     "                self.__dict__[attr] = value\n                return", "                self.__dict__[attr] = value"),
+    ('C10', 'getattr-exact', 'xtuml/meta.py',
+     "        uname = name.upper()\n        for attr, _ in get_metaclass(self).attributes:\n            if attr.upper() != uname :\n                continue\n            \n            if attr in self.__dict__:\n                return",
+     "        uname = name\n        for attr, _ in get_metaclass(self).attributes:\n            if attr != uname :\n                continue\n            \n            if attr in self.__dict__:\n                return"),
+    ('C10', 'find-metaclass-exact', 'xtuml/meta.py',
+     "        ukind = kind.upper()\n        if ukind in self.metaclasses:\n            return self.metaclasses[ukind]",
+     "        ukind = kind.upper()\n        if kind in self.metaclasses:\n            return self.metaclasses[kind]"),
+    ('C10', 'new-kwargs-exact', 'xtuml/meta.py',
+     "                if attr_name.upper() == name.upper():\n                    name = attr_name",
+     "                if attr_name == name:\n                    name = attr_name"),
+    ('C10', 'delattr-wrong-key', 'xtuml/meta.py',
+     "        raise AttributeError(name)", "        del self.__dict__[attr]"),
+    ('C10', 'delattr-exact', 'xtuml/meta.py',
+     "            if uname == attr.upper():\n                del", "            if name == attr:\n                del"),
 ]
 
 
